@@ -92,7 +92,7 @@ func buildCorpus(c *Ctx, nGen int, withRepo, withStd bool) ([]corpusFn, error) {
 	var corpus []corpusFn
 	r := NewRng(c.Seed)
 	for i := 0; i < nGen; i++ {
-		p := GenProgram(r.Fork(), "genpkg", 5, 6)
+		p := GenProgramW(r.Fork(), "genpkg", 5, 6, true)
 		src := p.Render(nil, nil, 0)
 		f, err := writeModule(c.Work, fmt.Sprintf("cg%d", i), "a.go", src)
 		if err != nil {
